@@ -19,7 +19,7 @@ ASSUMPTIONS = ["margin disabled for every pool, liquidity protection inactive, r
                "map iterations modelled in sorted order (order-independence is C09)"]
 UNPROVED = [
     "reachable_units_Statement holds only outside finding F17 (AddLiquidity into a pool with an empty side resets pool units): proved as reachable_units_partial under RunOK",
-    "payout bound of removals (pro-rata up to 1 base unit + 1e-15 relative) is not yet proved; it is exercised by the L0/L1 correspondence",
+    "payout bound of removals: proved for both calculators (removeUnits_payout_le_prorata, removeBps_payout_le_prorata) and judged on every real removal (c02.payout); the step from the calculator to the handler's bank transfer is the model's finishRemoval, tied by correspondence",
     "removal queue: margin is disabled in the model slice, so queued-removal processing is not modelled",
 ]
 MANIFEST = {
